@@ -126,6 +126,14 @@ CHECKS = {
         "note": "Trusted: TLC; attribution of lines to converter calls by Dump() diff (checked insertion-only); recognition of labels/jumps/calls by line shape; bash -n.",
         "technique": "TLA+ protocol trace specification (Emit) + TLC validation of recorded converter-call traces; bash -n for the Bash target",
     },
+    "C05": {
+        "text": "No cmd.exe exists in the sandbox, so the Batch target is decided under an explicit TLA+ model of the rules the property names (spec/CmdExe.tla: units, %- and !-expansion phases, "
+                "set /A in 32 bits, numeric-vs-text IF, forward-then-wrap label search from the end of the current unit, call/exit /B frames). The REAL emitted script of every program "
+                "(C01-C04 families in the int32/cmd-neutral fragment, label-allocation shapes across functions, seeded random programs) is parsed into units and executed by TLC; stdout and "
+                "status must equal the reference semantics TshDyn(W=32); the Bash run is a third witness.",
+        "note": "Trusted: TLC; spec/CmdExe.tla as the statement of cmd.exe's documented rules (a model, not cmd.exe); harness/batparse.go as the splitter of emitted lines into commands and segments.",
+        "technique": "TLA+ model of cmd.exe executing the real emitted Batch script in TLC, compared with the TLA+ reference semantics",
+    },
 }
 
 NOT_APPLICABLE = {}
